@@ -42,7 +42,8 @@ def main():
         res["checks"] = {}
         for i in ids:
             env = dict(ENV, VERIF_REPO=wt)
-            rc, out = sh("./check %s --tier quick 2>&1 | grep -v '^\\[' | tail -8" % i, cwd=ROOT, env=env, timeout=3000)
+            rc, out = sh("./check %s --tier quick 2>&1" % i, cwd=ROOT, env=env, timeout=3000)
+            out = "\n".join(l for l in out.splitlines() if not l.startswith("["))
             lines = [l for l in out.splitlines() if l.startswith("VIOLATION") or l.startswith("OK ")]
             res["checks"][i] = {"result": "ALARM" if any(l.startswith("VIOLATION") for l in lines) else "ok",
                                 "lines": [l[:200] for l in lines][:4], "detail": out[-700:] if any(l.startswith("VIOLATION") for l in lines) else ""}
